@@ -17,8 +17,13 @@ def run(ctx):
     st = ctx.app_stats
     for d in (st.get("ReplicaDiffs") or [])[:5]:
         V.violation(ctx, "replicas-differ", {"kind": "two-replicas-disagree", "what": d})
+    # a different but still deterministic order would not break C01 by itself: unless the two replicas
+    # also differ, this is the correspondence with Ledger.v's commit order, not a failing input
     for d in (st.get("TreeOpBad") or [])[:5]:
-        V.violation(ctx, "commit-tree-ops-not-sorted", {"kind": "tree-operations-depend-on-iteration-order", "theorem": "C01_commit_order_irrelevant", "what": d})
+        V.violation(ctx, "correspondence:commit-tree-ops-not-in-model-order", {"kind": "model-implementation-divergence", "theorem": "C01_commit_order_irrelevant", "what": d,
+                    "meaning": "the commit's tree operations are not 'removals, then sets in strictly descending key order', the order Ledger.v's commit has and the determinism argument relies on",
+                    "searched": "two real replicas were run on every history of this check and compared: %d differences between them" % len(st.get("ReplicaDiffs") or [])},
+                    nofail=not (st.get("ReplicaDiffs")))
     common.patch_evidence(ctx, {"replica_pairs": st.get("ReplicaRuns", 0), "commits_writing_two_or_more_keys_to_one_ledger": st.get("MultiKeyCommits", 0),
                                 "durable_write_order": st.get("WriteOrder")},
                           distinct=st.get("MultiKeyCommits", 0))
